@@ -14,22 +14,24 @@ type GenCfg struct {
 	LongLen   int  // length of long strings
 	NoNilDist bool // never mark containers as nil
 	SubTick   bool // allow dates that are not tick aligned / not UTC
+	WildDates bool // also dates whose tick count the format leaves open: before 1970 off the tick grid, outside 1678..2262
 	FullMsg   int  // percent chance that a message has every field set (0 = default mix)
 	Ladder    int  // 1/Ladder chance that a string / byte array / small-element array takes a threshold size
 	LadderMax int  // largest ladder size allowed (0 = all)
+	LadderBig int  // one ladder hit in LadderBig is one of the sizes around the 64 KiB multiples
 }
 
 // sizeLadder holds lengths around the powers of two where buffers, fast paths and narrow
 // integer types change behaviour.
 var sizeLadder = []int{255, 256, 257, 1023, 1024, 1025, 4095, 4096, 4097}
-var sizeLadderBig = []int{65535, 65536, 65537}
+var sizeLadderBig = []int{65535, 65536, 65537, 131071, 131072, 131073, 196608}
 
 func (g *Gen) ladder() (int, bool) {
 	if g.Cfg.Ladder <= 0 || !g.R.Chance(1, g.Cfg.Ladder) {
 		return 0, false
 	}
 	l := sizeLadder[g.R.Intn(len(sizeLadder))]
-	if g.R.Chance(1, 12) {
+	if g.Cfg.LadderBig > 0 && g.R.Chance(1, g.Cfg.LadderBig) {
 		l = sizeLadderBig[g.R.Intn(len(sizeLadderBig))]
 	}
 	if g.Cfg.LadderMax > 0 && l > g.Cfg.LadderMax {
@@ -39,7 +41,7 @@ func (g *Gen) ladder() (int, bool) {
 }
 
 func DefaultCfg() GenCfg {
-	return GenCfg{MaxDepth: 3, MaxElems: 4, LongProb: 40, LongLen: 300, SubTick: true, Ladder: 30}
+	return GenCfg{MaxDepth: 3, MaxElems: 4, LongProb: 40, LongLen: 300, SubTick: true, Ladder: 30, LadderBig: 12}
 }
 
 type Gen struct {
@@ -392,6 +394,17 @@ const maxNanos = math.MaxInt64
 func (g *Gen) date() *Date {
 	r := g.R
 	d := &Date{}
+	if g.Cfg.WildDates && r.Chance(1, 3) {
+		switch r.Intn(3) {
+		case 0:
+			d.Nanos = -int64(r.Range(1, 1<<40))*100 - int64(r.Range(1, 99))
+		case 1:
+			d.Far, d.Sec, d.Nanos = true, -int64(r.Range(1<<34, 1<<36)), int64(r.Intn(1000000000)) // ~ year 1400..-200
+		default:
+			d.Far, d.Sec, d.Nanos = true, int64(r.Range(1<<34, 1<<36)), int64(r.Intn(1000000000)) // ~ year 2500..4100
+		}
+		return d
+	}
 	switch r.Intn(8) {
 	case 0:
 		d.Zero = true
